@@ -15,6 +15,9 @@ package keeper
 //@ decabstract
 //@ bound routes 2
 //@ ensures C02/total-shares-track-supply: shareGap(ctx, p) == old(shareGap(ctx, p))
+//@ instances sender, recipient, tokenIn.Denom, routes[0].TokenOutDenom, routes[1].TokenOutDenom
+//@ ensures C04/single-hop-exact-in-settles-as-requested: err == nil && len(routes) == 1 && isUser(sender) && isUser(recipient) ==> tokenOutAmount >= tokenOutMinAmount && bal(ctx, sender, tokenIn.Denom) == old(bal(ctx, sender, tokenIn.Denom)) - tokenIn.Amount && bal(ctx, recipient, routes[0].TokenOutDenom) >= old(bal(ctx, recipient, routes[0].TokenOutDenom)) + tokenOutAmount
+//@ ensures C04/two-hop-exact-in-settles-as-requested: err == nil && len(routes) == 2 && isUser(sender) && isUser(recipient) && sender != recipient ==> tokenOutAmount >= tokenOutMinAmount && bal(ctx, sender, tokenIn.Denom) == old(bal(ctx, sender, tokenIn.Denom)) - tokenIn.Amount && bal(ctx, recipient, routes[1].TokenOutDenom) >= old(bal(ctx, recipient, routes[1].TokenOutDenom)) + tokenOutAmount
 
 //@ func (Keeper).RouteExactAmountOut
 //@ modifies world
@@ -23,6 +26,8 @@ package keeper
 //@ decabstract
 //@ bound routes 2
 //@ ensures C02/total-shares-track-supply: shareGap(ctx, p) == old(shareGap(ctx, p))
+//@ instances sender, recipient, tokenOut.Denom
+//@ ensures C04/single-hop-exact-out-settles-as-requested: err == nil && len(routes) == 1 && isUser(sender) && isUser(recipient) ==> tokenInAmount <= tokenInMaxAmount && bal(ctx, sender, routes[0].TokenInDenom) == old(bal(ctx, sender, routes[0].TokenInDenom)) - tokenInAmount && bal(ctx, recipient, tokenOut.Denom) >= old(bal(ctx, recipient, tokenOut.Denom)) + tokenOut.Amount
 
 //@ func (Keeper).CalcSwapEstimationByDenom
 //@ modifies module:amm
@@ -194,12 +199,19 @@ package keeper
 
 // Swaps: the pool object comes from the routing functions, which load it in the same transaction.
 //@ func (Keeper).UpdatePoolForSwap
+//@ instances sender, recipient, tokenIn.Denom, tokenOut.Denom
 //@ forall p Int
 //@ decabstract
 //@ modifies bank-balances, module:amm, module:accountedpool, module:masterchef, module:perpetual, module:tier, module:sdk-distribution
 //@ requires poolCurrent(ctx, pool)
 //@ ensures C02/total-shares-track-supply: shareGap(ctx, p) == old(shareGap(ctx, p))
 //@ ensures C02/stored-share-total-unchanged: ammPoolHas(ctx, pool.PoolId) && ammPoolRow(ctx, pool.PoolId).TotalShares.Amount == old(ammPoolRow(ctx, pool.PoolId).TotalShares.Amount)
+//@ forall a Addr
+//@ forall d Str
+//@ ensures C04/input-taken-output-paid: err == nil && isUser(sender) && isUser(recipient) && tokenIn.Denom != tokenOut.Denom ==> bal(ctx, sender, tokenIn.Denom) == old(bal(ctx, sender, tokenIn.Denom)) - tokenIn.Amount && bal(ctx, recipient, tokenOut.Denom) >= old(bal(ctx, recipient, tokenOut.Denom)) + tokenOut.Amount
+//@ ensures C04/third-parties-untouched: isUser(a) && a != sender && a != recipient ==> bal(ctx, a, d) == old(bal(ctx, a, d))
+//@ ensures C04/only-the-two-denoms-move: isUser(a) && d != tokenIn.Denom && d != tokenOut.Denom ==> bal(ctx, a, d) == old(bal(ctx, a, d))
+//@ ensures C04/sides-do-not-cross: isUser(sender) && isUser(recipient) && sender != recipient && tokenIn.Denom != tokenOut.Denom ==> bal(ctx, sender, tokenOut.Denom) == old(bal(ctx, sender, tokenOut.Denom)) && bal(ctx, recipient, tokenIn.Denom) == old(bal(ctx, recipient, tokenIn.Denom))
 
 //@ func (Keeper).UpdatePoolParams
 //@ forall p Int
@@ -226,6 +238,9 @@ package keeper
 //@ requires poolCurrent(ctx, pool)
 //@ ensures C02/total-shares-track-supply: shareGap(ctx, p) == old(shareGap(ctx, p))
 //@ ensures C02/pool-object-still-current: pool.TotalShares.Amount == ammPoolRow(ctx, pool.PoolId).TotalShares.Amount && ammPoolHas(ctx, pool.PoolId)
+//@ forall a Addr
+//@ forall d Str
+//@ ensures C04/third-parties-untouched: isUser(a) ==> bal(ctx, a, d) == old(bal(ctx, a, d))
 
 //@ func (Keeper).SwapFeesToRevenueToken
 //@ forall p Int
@@ -234,6 +249,9 @@ package keeper
 //@ ensures C02/stored-share-total-unchanged: ammPoolHas(ctx, pool.PoolId) && ammPoolRow(ctx, pool.PoolId).TotalShares.Amount == old(ammPoolRow(ctx, pool.PoolId).TotalShares.Amount)
 //@ requires poolCurrent(ctx, pool)
 //@ ensures C02/total-shares-track-supply: shareGap(ctx, p) == old(shareGap(ctx, p))
+//@ forall a Addr
+//@ forall d Str
+//@ ensures C04/third-parties-untouched: isUser(a) ==> bal(ctx, a, d) == old(bal(ctx, a, d))
 
 //@ func (Keeper).GetExternalLiquidityRatio
 //@ modifies nothing
@@ -250,18 +268,34 @@ package keeper
 // One hop of a swap: prices on the pool object, then settles through UpdatePoolForSwap. Shares and
 // supplies are never involved, whatever the outcome.
 //@ func (Keeper).InternalSwapExactAmountIn
+//@ instances sender, recipient, tokenIn.Denom, tokenOutDenom
 //@ forall p Int
 //@ decabstract
 //@ modifies bank-balances, module:amm, module:accountedpool, module:masterchef, module:perpetual, module:tier, module:sdk-distribution
 //@ requires poolCurrent(ctx, pool)
 //@ ensures C02/total-shares-track-supply: shareGap(ctx, p) == old(shareGap(ctx, p))
+//@ forall a Addr
+//@ forall d Str
+//@ ensures C04/exact-in-hop-settles-as-requested: err == nil && isUser(sender) && isUser(recipient) ==> tokenOutAmount >= tokenOutMinAmount && bal(ctx, sender, tokenIn.Denom) == old(bal(ctx, sender, tokenIn.Denom)) - tokenIn.Amount && bal(ctx, recipient, tokenOutDenom) >= old(bal(ctx, recipient, tokenOutDenom)) + tokenOutAmount
+//@ ensures C04/third-parties-untouched: isUser(a) && a != sender && a != recipient ==> bal(ctx, a, d) == old(bal(ctx, a, d))
+//@ ensures C04/only-the-two-denoms-move: isUser(a) && d != tokenIn.Denom && d != tokenOutDenom ==> bal(ctx, a, d) == old(bal(ctx, a, d))
+//@ ensures C04/sides-do-not-cross: isUser(sender) && isUser(recipient) && sender != recipient ==> bal(ctx, sender, tokenOutDenom) == old(bal(ctx, sender, tokenOutDenom)) && bal(ctx, recipient, tokenIn.Denom) == old(bal(ctx, recipient, tokenIn.Denom))
+//@ ensures C04/denoms-differ: err == nil ==> tokenIn.Denom != tokenOutDenom
 
 //@ func (Keeper).InternalSwapExactAmountOut
+//@ instances sender, recipient, tokenInDenom, tokenOut.Denom
 //@ forall p Int
 //@ decabstract
 //@ modifies bank-balances, module:amm, module:accountedpool, module:masterchef, module:perpetual, module:tier, module:sdk-distribution
 //@ requires poolCurrent(ctx, pool)
 //@ ensures C02/total-shares-track-supply: shareGap(ctx, p) == old(shareGap(ctx, p))
+//@ forall a Addr
+//@ forall d Str
+//@ ensures C04/exact-out-hop-settles-as-requested: err == nil && isUser(sender) && isUser(recipient) ==> tokenInAmount <= tokenInMaxAmount && bal(ctx, sender, tokenInDenom) == old(bal(ctx, sender, tokenInDenom)) - tokenInAmount && bal(ctx, recipient, tokenOut.Denom) >= old(bal(ctx, recipient, tokenOut.Denom)) + tokenOut.Amount
+//@ ensures C04/third-parties-untouched: isUser(a) && a != sender && a != recipient ==> bal(ctx, a, d) == old(bal(ctx, a, d))
+//@ ensures C04/only-the-two-denoms-move: isUser(a) && d != tokenInDenom && d != tokenOut.Denom ==> bal(ctx, a, d) == old(bal(ctx, a, d))
+//@ ensures C04/sides-do-not-cross: isUser(sender) && isUser(recipient) && sender != recipient ==> bal(ctx, sender, tokenOut.Denom) == old(bal(ctx, sender, tokenOut.Denom)) && bal(ctx, recipient, tokenInDenom) == old(bal(ctx, recipient, tokenInDenom))
+//@ ensures C04/denoms-differ: err == nil ==> tokenInDenom != tokenOut.Denom
 
 // The pool with the highest TVL among the stored pools holding the denoms. Trusted: it is one of
 // the rows GetAllPool has just read.
@@ -283,9 +317,19 @@ package keeper
 //@ frame-only
 
 //@ func (Keeper).createMultihopExpectedSwapOuts
+//@ decabstract
+//@ bound routes 2
 //@ modifies table:amm~:types.KeyPrefix/types.PoolKey
-//@ frame-only
+//@ ensures C04/one-expected-input-per-hop: result1 == nil ==> len(result0) == len(routes)
 
 //@ func (Keeper).createElysMultihopExpectedSwapOuts
+//@ decabstract
+//@ bound routes 2
 //@ modifies table:amm~:types.KeyPrefix/types.PoolKey
-//@ frame-only
+//@ ensures C04/one-expected-input-per-hop: result1 == nil ==> len(result0) == len(routes)
+
+// Queued swap requests are applied by the end-of-block batch only.
+//@ func (Keeper).ApplySwapRequest
+//@ modifies world
+//@ callers C04/applied-only-by-the-end-block-batch: (Keeper).ExecuteSwapRequests
+//@ havoc-only
